@@ -1732,6 +1732,8 @@ class PathEval:
     @staticmethod
     def _is_value(v) -> bool:
         """the binding holds a freshly built object (not a reference to some other named object)"""
+        if isinstance(v, ast.Call) and isinstance(v.func, ast.Attribute) and v.func.attr in ('get', 'setdefault') and isinstance(v.func.value, (ast.Name, ast.Attribute, ast.Subscript)):
+            return False        # d.get(k) / d.setdefault(k, ..) hand out the element stored in d
         return v is not None and not isinstance(v, (ast.Name, ast.Attribute, ast.Subscript))
 
     def _stmt(self, s):
